@@ -69,6 +69,10 @@ pub struct TapeSrc<'a> {
     pub tape: &'a [u8],
     pub pos: usize,
     pub good: bool,
+    /// lenient: a violated assumption / exhausted tape is remembered instead of
+    /// aborting (used only for value lists read from a raw CBMC trace, which may
+    /// omit inputs the failing path does not depend on)
+    pub lenient: bool,
 }
 
 impl<'a> TapeSrc<'a> {
@@ -77,6 +81,7 @@ impl<'a> TapeSrc<'a> {
             tape,
             pos: 0,
             good: true,
+            lenient: false,
         }
     }
     fn byte(&mut self) -> u8 {
@@ -84,6 +89,10 @@ impl<'a> TapeSrc<'a> {
             self.pos += 1;
             *b
         } else {
+            if self.lenient {
+                self.good = false;
+                return 0;
+            }
             // a solver counterexample always provides every value it drew
             panic!("verif: tape exhausted (value list does not match the harness's draws)");
         }
@@ -113,6 +122,10 @@ impl Src for TapeSrc<'_> {
     }
     fn assume(&mut self, c: bool) {
         if !c {
+            if self.lenient {
+                self.good = false;
+                return;
+            }
             // the solver's counterexamples satisfy every assumption: a violated one
             // means the tape is not a faithful value list, never a finding
             panic!("verif: assumption violated (tape outside the harness domain)");
